@@ -83,6 +83,8 @@ const prelude = `(set-option :produce-models true)
 (declare-fun ea_arr (Int) Int)
 (declare-fun ea_idx (Int) Int)
 (assert (forall ((a Int) (i Int)) (! (and (= (ea_arr (ea a i)) a) (= (ea_idx (ea a i)) i) (= (akind (ea a i)) 1) (= (root (ea a i)) (root a)) (not (= (ea a i) 0))) :pattern ((ea a i)))))
+(declare-fun elemaddr (Slice Int) Int)
+(assert (forall ((s Slice) (i Int)) (! (= (elemaddr s i) (ea (sarr s) (+ (soff s) i))) :pattern ((elemaddr s i)))))
 (declare-const allocbase Int)
 (assert (> allocbase 0))
 (declare-fun chainHas (Iface Int) Bool)
